@@ -164,7 +164,22 @@ class BitEval:
         if depth > 12:
             return Unknown("depth")
         env = {i + 1: a for i, a in enumerate(args)}
-        return self.eval(self.ret(f), env, f, depth)
+        v = self.eval(self.ret(f), env, f, depth)
+        if isinstance(v, Unknown) and "phi" in str(getattr(v, "why", v)):
+            # a branch on a compile-time constant (`if cfg!(..)`, `if O::IS_ALTERNATE_ORDER` after instantiation) joins two
+            # values in the all-paths tree; the path summaries keep only the branch the constant selects
+            try:
+                from .paths import Paths
+                if not hasattr(self.prog, "_bits_paths"):
+                    self.prog._bits_paths = Paths(self.prog, inline=lambda g: False)
+                ss = self.prog._bits_paths.of(f)
+                if len(ss) == 1 and not ss[0].effects and not ss[0].facts:
+                    v2 = self.eval(ss[0].ret, env, f, depth)
+                    if not isinstance(v2, Unknown):
+                        return v2
+            except Exception:
+                pass
+        return v
 
     # ---- evaluation -----------------------------------------------------------------------
     def eval(self, t, env, fn, depth=0):
@@ -307,6 +322,14 @@ class BitEval:
         cands = [f for f in self.prog.by_path.get(path, []) if f.body and f.kind in ("fn", "assoc_fn")]
         if len(cands) == 1 and not cands[0].d.get("trait_def"):
             return self.call_fn(cands[0], args, depth + 1)
+        # lossless integer / bool widening: `u8::from(flag)`, `u16::from(byte)`
+        if name == "from" and "convert::num" in path and len(args) == 1 and isinstance(args[0], BV):
+            import re as _re
+            m_ = _re.search(r"for (u|i)(8|16|32|64|128|size)>", path)
+            if m_ and m_.group(1) == "u":
+                w_ = 64 if m_.group(2) == "size" else int(m_.group(2))
+                bits_ = list(args[0].bits)[:w_]
+                return BV(bits_ + [0] * (w_ - len(bits_)), w_)
         # core integer byte (de)serialisers
         if path.startswith("core::num::") and name in ("to_be_bytes", "to_le_bytes", "to_ne_bytes") and isinstance(args[0], BV) and args[0].width:
             a = args[0]
